@@ -100,11 +100,12 @@ class ContentModel:
       pcs = c.methods.get("push_children")
       if pcs is not None:
         for n in own_nodes(pcs.node):
+          table = ix.deref(c.module, n.comparators[0], cls=c, func=pcs) if isinstance(n, ast.Compare) and len(n.ops) == 1 else None
           if isinstance(n, ast.Compare) and len(n.ops) == 1 and isinstance(n.ops[0], (ast.NotIn, ast.In)) \
-              and isinstance(n.comparators[0], ast.List):
+              and isinstance(table, (ast.List, ast.Tuple, ast.Set)):
             pats = []
-            for pat in n.comparators[0].elts:
-              if isinstance(pat, ast.List):
+            for pat in table.elts:
+              if isinstance(pat, (ast.List, ast.Tuple)):
                 names = []
                 for e in pat.elts:
                   r = ix.resolve(c.module, e, cls=c)
